@@ -915,6 +915,9 @@ def u_wiring(ctx, fn, rr=None, rand=None):
 # weights stored with it is their true sum: the C10 units on build_trees / AngularTree.__init__, run here as well
 def _register_shared():
     from . import C10 as _C10
+    from . import C12 as _C12
+    # the stored radius bounds the distance of every record to the *stored* centre (premise of the pruning lemma)
+    unit(P, "Metadata.compute", fuc=["yaw.catalog.patch:Metadata.compute"], cases=[dict(weighted=w, given=g) for w in (False, True) for g in (False, True)])(_C12.u_compute)
     unit(P, "build_trees", fuc=["yaw.catalog.trees:build_trees"],
          cases=[dict(closed=c, has_weights=w, binned=True) for c in _C10.CLOSED for w in (False, True)] + [dict(closed="right", has_weights=w, binned=False) for w in (False, True)],
          trusted=["groupby contract", "np.digitize"])(_C10.u_build)
